@@ -243,6 +243,12 @@ impl<SVC: Service> CloudServer<SVC> {
 
     /// Perform cleanup, deleting unnecessary data.
     async fn cleanup(&mut self) -> Result<()> {
+        // Read "latest" before listing anything. Every version on the chain up to that point
+        // already exists, so the listing below contains that whole chain, whatever other
+        // replicas add in the meantime; and anything they add descends from this version, so it
+        // is never mistaken for garbage.
+        let latest = self.get_latest().await?;
+
         // Construct a vector containing all (child, parent, creation) tuples
         let mut versions = {
             let mut versions = Vec::new();
@@ -268,14 +274,15 @@ impl<SVC: Service> CloudServer<SVC> {
             Err(_) => None,
         };
 
-        // Create chains mapping forward (parent -> child) and backward (child -> parent), starting
-        // at "latest".
-        let mut rev_chain = HashMap::new();
+        // The chain as (child, parent) pairs, walking backward from "latest", and a map from
+        // each parent on it to its child on the chain.
+        let mut chain = Vec::new();
+        let mut chain_child = HashMap::new();
         let mut iterations = versions.len() + 1; // For cycle detection.
-        let latest = self.get_latest().await?;
         if let Some(mut c) = latest {
             while let Some(p) = parent_of(c) {
-                rev_chain.insert(c, p);
+                chain.push((c, p));
+                chain_child.insert(p, c);
                 c = p;
                 iterations -= 1;
                 if iterations == 0 {
@@ -309,12 +316,17 @@ impl<SVC: Service> CloudServer<SVC> {
             })
             .collect();
 
-        // Now, any pair not present in that chain can be deleted. However, another replica
-        // may be in the state where it has uploaded a version but not changed "latest" yet,
-        // so any pair with parent equal to latest is allowed to stay.
-        for (c, p, _) in versions {
-            if rev_chain.get(&c) != Some(&p) && Some(p) != latest {
-                self.service.del(&Self::version_name(&p, &c)).await?;
+        // A version whose parent already has a different child on the chain lost the race to
+        // become that child and never can, so it can be deleted. Versions whose parent has no
+        // known child on the chain (children of "latest", and anything added since) are left
+        // alone: another replica may be about to make them "latest".
+        let mut losers = Vec::new();
+        for (c, p, _) in &versions {
+            if let Some(chain_c) = chain_child.get(p) {
+                if chain_c != c {
+                    self.service.del(&Self::version_name(p, c)).await?;
+                    losers.push(*c);
+                }
             }
         }
 
@@ -335,50 +347,46 @@ impl<SVC: Service> CloudServer<SVC> {
             snapshots
         };
 
-        // Find the latest snapshot by iterating back from "latest". Note that this iteration is
-        // guaranteed not to be cyclical, as that was checked above.
-        let mut latest_snapshot = None;
-        if let Some(mut version) = latest {
-            loop {
-                if snapshots.contains(&version) {
-                    latest_snapshot = Some(version);
-                    break;
-                }
-                if let Some(v) = rev_chain.get(&version) {
-                    version = *v;
-                } else {
-                    break;
-                }
+        // A snapshot of a version that lost the race is of no use to anyone.
+        for version in &losers {
+            if snapshots.contains(version) {
+                self.service.del(&Self::snapshot_name(version)).await?;
             }
         }
 
-        // If there's a latest snapshot, delete all other snapshots.
-        let Some(latest_snapshot) = latest_snapshot else {
+        // The versions on the chain, newest first. The latest snapshot is the first of them
+        // that has a snapshot.
+        let chain_versions: Vec<Uuid> = latest
+            .into_iter()
+            .chain(chain.iter().map(|(_, p)| *p))
+            .collect();
+        let Some(snapshot_idx) = chain_versions.iter().position(|v| snapshots.contains(v)) else {
             // If there's no snapshot, no further cleanup is possible.
             return Ok(());
         };
-        for version in snapshots {
-            if version != latest_snapshot {
-                self.service.del(&Self::snapshot_name(&version)).await?;
+
+        // Delete the snapshots of versions earlier on the chain than the latest snapshot: that
+        // one makes them redundant. Snapshots of versions not on this chain are left alone: they
+        // may be for versions added since "latest" was read.
+        for version in &chain_versions[snapshot_idx + 1..] {
+            if snapshots.contains(version) {
+                self.service.del(&Self::snapshot_name(version)).await?;
             }
         }
 
         // Now continue iterating backward from that version; any version in `old_versions` can be
         // deleted.
-        let mut version = latest_snapshot;
-        while let Some(parent) = rev_chain.get(&version) {
-            if old_versions.contains(&version) {
+        for (version, parent) in chain.iter().skip(snapshot_idx) {
+            if old_versions.contains(version) {
                 self.service
-                    .del(&Self::version_name(parent, &version))
+                    .del(&Self::version_name(parent, version))
                     .await?;
             }
-            version = *parent;
         }
 
         Ok(())
     }
 
-    /// Determine the snapshot version and filename.
     #[cfg(gothenburgbitfactory_taskchampion_verif)]
     pub(in crate::server) async fn verif_cleanup(&mut self) -> Result<()> {
         self.cleanup().await
